@@ -108,3 +108,11 @@ Proof. exact TickerProps.interval_long_body. Qed.
 Example delay_run_example :
   run_case (true, None, 0, 5, [2; 6; 0]) = ([(5, 5, 5); (12, 12, 5); (23, 23, 5); (28, 28, 5)], 0).
 Proof. exact TickerProps.delay_bodies. Qed.
+
+(** (A) the tie to /repo's current source: every function this property's models were transcribed from has, in the
+    tree this run is checking, the normalised source it had when the models were validated (hashes regenerated from
+    /repo into gen/Generated.v on every run; pins in gen/SourcePins.v).  A change to one of them invalidates the
+    transcription until it is re-validated. *)
+From UsimGen Require SourcePins Pin_C14.
+Theorem C14_modelled_source_unchanged : forallb SourcePins.pin_ok Pin_C14.pins = true.
+Proof. exact Pin_C14.src_unchanged. Qed.
